@@ -95,10 +95,15 @@ func gstates() map[int64]string {
 	return out
 }
 
-func waitingState(s string) bool {
+// waitingState: the wait states in which a thread of a forced case can only be woken by
+// another thread of the case or by the harness. Everything else ("running", "runnable",
+// "semacquire" = waiting for the GC / stop-the-world semaphore inside an allocation,
+// "GC assist wait", "preempted", ...) is transient and counts as busy.
+func waitingState(s string, parked bool) bool {
 	switch s {
-	case "chan receive", "chan send", "select", "sync.Mutex.Lock", "sync.RWMutex.Lock",
-		"sync.RWMutex.RLock", "sync.Cond.Wait", "semacquire", "sleep", "sync.WaitGroup.Wait":
+	case "chan receive":
+		return parked
+	case "sync.Mutex.Lock", "sync.RWMutex.Lock", "sync.Cond.Wait":
 		return true
 	}
 	return false
@@ -167,7 +172,7 @@ func (f *frun) quiesce() {
 				continue
 			}
 			s, ok := st[t.gid]
-			if !ok || !waitingState(s) {
+			if !ok || !waitingState(s, t.parked.Load()) {
 				busy = true
 				break
 			}
